@@ -98,6 +98,21 @@ def run(chk):
         for (o, sm) in variants:
             g.append(len(cases)); cases.append('y%d.%d%s api %s %d %s - %s' % (len(groups), o, sm, p, o, sm, ' '.join(ops)))
         groups.append(('synthetic cmap on ' + src, g))
+    # the strings the repository itself tests each font with (whole lines of its comparison corpus), lazily loaded against preloaded faces:
+    # glyphs that shaping touches only indirectly (collision exclusion glyphs, pseudo glyphs) are loaded by different routes
+    for font in S.FONTS:
+        _, lines, _ = S.seeds(vlib.REPO, font)
+        collides = font.startswith('Awami')
+        take = lines if (collides or thorough) else lines[:40]
+        if not collides and len(take) > 300:
+            take = rng.sample(take, 300)
+        rtl = 1 if font.startswith(('Awami', 'Schehera')) else 0
+        for b in range(0, len(take), 16):
+            ops = ['seg:%d:32:%d:-:-:%s' % (j % 3, rtl, ''.join('%08x' % c for c in t[:48])) for j, t in enumerate(take[b:b + 16])]
+            g = []
+            for (o, sm) in ((0, 'file'), (2, 'file'), (7, 'cb'), (4, 'cb')):
+                g.append(len(cases)); cases.append('z%d.%d%s api %s %d %s - %s' % (len(groups), o, sm, font, o, sm, ' '.join(ops)))
+            groups.append((font + ' corpus lines', g))
     _, il, _ = vlib.run_pair(None, hexe, cases, timeout=3000)
     classes, dist = set(), {}
     for font, g in groups:
